@@ -139,7 +139,7 @@ M("C17", "reset-after-yield", UT, "        if val > stop:\n            val = sta
 M("C17", "from-request-copies", PL, "        new_request = cls(\n            next(sequence),\n            request.tag,\n            request.elements,\n            request.tag_info,\n            request.request_id,\n            request._use_instance_id,\n            offset,\n        )\n        new_request.request_path = request.request_path", "        new_request = cls(\n            request._sequence,\n            request.tag,\n            request.elements,\n            request.tag_info,\n            request.request_id,\n            request._use_instance_id,\n            offset,\n        )\n        new_request.request_path = request.request_path", ["D17.2"])
 M("C17", "second-cycle-in-open", CD, "            self._connection_opened = True\n            self._cfg[\"cid\"] = urandom(4)", "            self._connection_opened = True\n            self._sequence = cycle(65535, start=1)\n            self._cfg[\"cid\"] = urandom(4)", ["D17.4"])
 M("C17", "init-no-next", PE, "self._sequence = next(sequence) if isinstance(sequence, Generator) else sequence", "self._sequence = sequence", ["D17.2"])
-M("C17", "seq-not-first", PE, "        super()._setup_message()\n        self._msg.append(UINT.encode(self._sequence))\n\n    def build_request(", "        super()._setup_message()\n        self._msg.append(b\"\")\n        self._msg.append(UINT.encode(self._sequence))\n\n    def build_request(", ["D17.3"])
+M("C17", "seq-not-first", PE, "        super()._setup_message()\n        self._msg.append(UINT.encode(self._sequence))\n\n    def build_request(", "        super()._setup_message()\n        self._msg.append(b\"\\x00\")\n        self._msg.append(UINT.encode(self._sequence))\n\n    def build_request(", ["D17.3"])  # (the former variant appended b"" - no byte changes, an equivalent mutant)
 M("C17", "seq-usint", PE, "self._msg.append(UINT.encode(self._sequence))", "self._msg.append(USINT.encode(self._sequence))", ["D17.3"])
 M("C17", "literal-seq", SLC, "        request = SendUnitDataRequestPacket(self._sequence)\n        request.add(b\"\".join(message_request))\n        response = self.send(request)\n        self.__log.debug(f\"SLC read_tag({tag})\")", "        request = SendUnitDataRequestPacket(1)\n        request.add(b\"\".join(message_request))\n        response = self.send(request)\n        self.__log.debug(f\"SLC read_tag({tag})\")", ["D17.2"])
 T("C17", "ge-plus1", UT, "        if val > stop:", "        if val >= stop + 1:")
